@@ -211,10 +211,10 @@ def per_program(p):
 
 
 def plan(tier, seed):
-    n = 70 if tier == "quick" else 1500
+    n = 200 if tier == "quick" else 1500
     depth = 4 if tier == "quick" else 6
     shards = [{"kind": "progs", "seed": seed * 1000 + k, "n": n, "depth": depth} for k in range(15)]
-    shards.append({"kind": "bytes", "seed": seed * 1000 + 99, "n": 300 if tier == "quick" else 5000})
+    shards.append({"kind": "bytes", "seed": seed * 1000 + 99, "n": 1000 if tier == "quick" else 5000})
     return shards
 
 
